@@ -190,7 +190,11 @@ pub extern "Rust" fn __verif_svd_hook(tid: std::any::TypeId, data: *const u8, nr
     let cur = *CUR_PLANT.lock().unwrap();
     let q = PLANTS.lock().unwrap();
     let Some(Some((pu, ps, pvt))) = q.get(cur) else {
-        return false; // nothing planted: the real SVD runs on Sym ("real-svd" tier)
+        // nothing planted: the real SVD runs on Sym ("real-svd" tier), which is only tractable for a single column / row
+        if nrows.min(ncols) >= 2 {
+            panic!("VERIF-UNSUPPORTED: SVD of a symbolic {nrows}x{ncols} matrix without a planted factorisation");
+        }
+        return false;
     };
     let k = nrows.min(ncols);
     unsafe {
